@@ -127,7 +127,7 @@ def build(case):
     return x, y, iv
 
 
-def reference(t, nord, x, y, iv, lower, upper, maxiter):
+def reference(t, nord, x, y, iv, lower, upper, maxiter, need=None):
     """the documented procedure with an independent dense solver; returns (coeff, mask, supported, near)"""
     order = np.argsort(x)
     xs, ys, ivs = x[order], y[order], iv[order]
@@ -140,7 +140,7 @@ def reference(t, nord, x, y, iv, lower, upper, maxiter):
     for it in range(maxiter + 1):
         w = np.where(mask, ivs, 0.0)
         for a, c in zip(inner[:-1], inner[1:]):
-            if ((xs >= a) & (xs <= c) & mask).sum() < nord + 1:
+            if ((xs >= a) & (xs <= c) & mask).sum() < (nord + 1 if need is None else need):
                 supported = False
         sv = np.linalg.svd(A * np.sqrt(w)[:, None], compute_uv=False)
         if not (sv[-1] > 0 and sv[0] / sv[-1] < 1e4):
@@ -237,7 +237,8 @@ def body(case):
               lambda: dict(maxdev=float(np.abs(np.asarray(curve) - np.asarray(curve_p)).max())))
         # the two runs differ by round-off (amplified by the conditioning when weights span six decades): a residual that the
         # reference run saw within 1e-6 of a limit may fall on either side in either run - also a residual of ~1e-16 at a limit of 0
-        pre = reference(t, nord, x, y, iv, case['lower'], case['upper'], case['maxiter'])
+        # (the smallest problems - one interval, exactly `nord` good points - are determined by interpolation: the condition number decides)
+        pre = reference(t, nord, x, y, iv, case['lower'], case['upper'], case['maxiter'], need=nord if case.get('tiny') else None)
         zero_lim = case['lower'] == 0 or case['upper'] == 0
         if not pre[3] and (pre[2] or not (zero_lim or case.get('lowblock'))):
             check(np.array_equal(mask_p, mask[perm]), 'perm:mask-not-in-caller-order', lambda: dict(ndiff=int((mask_p != mask[perm]).sum())))
